@@ -40,7 +40,7 @@ class VerusUnit:
 
 
 class Property:
-    def __init__(self, pid, level, kani=(), verus=(), assumptions=(), explanation="", not_decided=(), trusted=()):
+    def __init__(self, pid, level, kani=(), verus=(), assumptions=(), explanation="", not_decided=(), trusted=(), replays=()):
         self.id = pid
         self.level = level              # 'proof' | 'other'
         self.kani = list(kani)
@@ -49,3 +49,4 @@ class Property:
         self.explanation = explanation
         self.not_decided = list(not_decided)
         self.trusted = list(trusted)
+        self.replays = list(replays)    # [dict(crate, file=<rel source to attach to>, module=<replay test module rel to /verif>)]
